@@ -13,3 +13,4 @@ import TinsModel.Props.C12
 #print axioms Tins.Props.C12.fixed_copy_assign_drops_old_inner
 #print axioms Tins.Props.C12.copyAssignAlwaysSafe_fails
 #print axioms Tins.Props.C12.copy_assign_safe_partial
+#print axioms Tins.Props.C12.move_transfers
